@@ -1,6 +1,6 @@
 (* C11 — type size facts are exact and values report their true byte length.
    Property theorems only. *)
-Require Import RM.Base RM.Types RM.Spec RM.ModelViews RM.ModelCodec RM.FactsProofs RM.SerLen RM.SerAll.
+Require Import RM.Base RM.Types RM.Spec RM.ModelViews RM.ModelCodec RM.FactsProofs RM.SerLen RM.SerAll RM.ReprProofs.
 Local Open Scope N_scope.
 
 (* the implementation's class-method facts (is_fixed_byte_length, min/max_byte_length,
@@ -44,3 +44,16 @@ Print Assumptions C11_value_len.
 Print Assumptions C11_bounds.
 Print Assumptions C11_fixed_exact.
 Print Assumptions C11_nonvacuous.
+
+(* ... and the same for a value reached by ANY route (decoded, imported, default, mutated: every such backing
+   represents its value, C04 / C05): the reported count is the length of the spec encoding, within bounds *)
+Theorem C11_value_len_any : forall H src t v n, wf_ty t = true -> wf t v = true -> Repr H t v n ->
+  exists b c, ser_impl H src t n = Ok (b, c) /\ b = ser t v /\ c = lenN b /\
+    min_impl t <= c <= max_impl t /\ (is_fixed_impl t = true -> c = fsize t).
+Proof.
+  intros H src t v n Hty Hwf Hr. exists (ser t v), (lenN (ser t v)). split; [exact (Repr_ser H src t v n Hty Hwf Hr)|].
+  split; [reflexivity|]. split; [reflexivity|].
+  rewrite min_impl_eq, max_impl_eq, is_fixed_impl_eq. split; [now apply ser_len_bounds|]. intros Hf. now apply ser_len_fixed.
+Qed.
+
+Print Assumptions C11_value_len_any.
